@@ -19,6 +19,8 @@ typedef uint64_t real_u64;
 #include "core/bigint.hpp"
 #include "core/fp.hpp"
 #include "core/fp_utils.hpp"
+using embedded_pairing::core::BigInt;      /* the scheme headers make BigInt visible at global scope in the same way (fq.hpp) */
+#include "bls12_381/wnaf.hpp"
 #undef uint32_t
 #undef uint64_t
 
@@ -195,6 +197,72 @@ static void bigint_row(real_u32 a, long only_b, unsigned long long& n) {
     }
 }
 
+/* ---------------------------------------------------------------------------------------------------------------------------
+ * w-NAF recoding and the table-based multiplication loop (include/bls12_381/wnaf.hpp, unchanged) at small scale, ALL scalars:
+ * WnafScalar<bits, window>::from_bigint for every scalar of 16 bits (2 words) and 24 bits (3 words: a carry can ripple through
+ * a middle word) and every window 2..5; the digits must recombine to the scalar exactly, be zero or odd with |d| < 2^window,
+ * stay inside the table (index |d| >> 1 < 2^(window-1)) and the buffer (wnaf_size <= bits + 1); wnaf_multiply over a toy group
+ * (the integers mod 2^61-1 written additively, with the interface the template expects) must equal scalar * base. */
+struct ZGroup {
+    real_u64 v;
+    static const ZGroup zero;
+    static constexpr real_u64 M = (1ull << 61) - 1;
+    void copy(const ZGroup& a) { v = a.v; }
+    void set(const ZGroup& a) { v = a.v; }
+    void add(const ZGroup& a, const ZGroup& b) { v = (a.v + b.v) % M; }
+    void multiply2(const ZGroup& a) { v = (2 * a.v) % M; }
+    void negate(const ZGroup& a) { v = (M - a.v) % M; }
+};
+const ZGroup ZGroup::zero = {0};
+
+template <int bits, unsigned int window>
+static unsigned long long wnaf_all(int part, int nparts, const char* only_k) {
+    using namespace embedded_pairing::bls12_381;
+    unsigned long long n = 0;
+    real_u64 lo = 0, hi = 1ull << bits;
+    if (only_k) { lo = strtoull(only_k, 0, 10); hi = lo + 1; part = 0; nparts = 1; }
+    char name[40];
+    snprintf(name, sizeof(name), "wnaf_%d_%u", bits, window);
+    for (real_u64 k = lo + part; k < hi; k += nparts) {
+        BigInt<bits> b;
+        for (int i = 0; i < bits / 8; i++) b.bytes[i] = (k >> (8 * i)) & 0xFF;
+        WnafScalar<bits, window> s;
+        memset(&s, 0x55, sizeof(s));
+        s.from_bigint(b);
+        bool ok = s.wnaf_size >= 0 && s.wnaf_size <= bits + 1;
+        long long acc = 0;
+        int last_nonzero = -100;
+        for (int i = 0; ok && i < s.wnaf_size; i++) {
+            int d = s.wnaf[i];
+            if (d != 0) {
+                if ((d & 1) == 0 || d >= (1 << window) || d <= -(1 << window)) ok = false;
+                if (((d < 0 ? -d : d) >> 1) >= (1 << (window - 1))) ok = false;        /* table index */
+                if (i - last_nonzero <= (int) window) ok = false;                          /* non-adjacent form: >= window zeros between digits */
+                last_nonzero = i;
+            }
+            acc += (long long) d * (1ll << i);
+        }
+        if (ok && (real_u64) acc != k) ok = false;
+        if (!ok) fail(name, 0, (real_u32) k, (real_u32) (k >> 32), (real_u32) acc, (real_u32) k);
+        /* the multiplication loop on the toy group */
+        ZGroup base = {0x123456789ABCDull % ZGroup::M}, res;
+        wnaf_multiply<ZGroup, ZGroup, bits, window>(res, base, b);
+        real_u64 want = (real_u64) ((unsigned __int128) k * base.v % ZGroup::M);
+        if (res.v != want) fail(name, 1, (real_u32) k, (real_u32) (k >> 32), (real_u32) res.v, (real_u32) want);
+        n++;
+    }
+    if (!only_k) stat(name, 0, n);
+    return n;
+}
+
+static void wnaf_sweep(bool thorough, int part, int nparts, const char* only_op, const char* only_k) {
+#define W(B, WIN) if (!only_op || !strcmp(only_op, "wnaf_" #B "_" #WIN)) wnaf_all<B, WIN>(part, nparts, only_k);
+    W(16, 2) W(16, 3) W(16, 4) W(16, 5)
+    if (thorough || only_op) { W(24, 2) W(24, 3) W(24, 4) W(24, 5) }
+    else { W(24, 4) }
+#undef W
+}
+
 int main(int argc, char** argv) {
     if (argc >= 6 && !strcmp(argv[1], "one")) {
         real_u32 p = atoi(argv[3]), a = atoi(argv[4]), b = atoi(argv[5]);
@@ -203,6 +271,11 @@ int main(int argc, char** argv) {
         else if (p == 8191u) ok = Run<FB>().one(argv[2], a, b, true);
         else if (p == 29683u) ok = Run<FC>().one(argv[2], a, b, true);
         else if (p == 32749u) ok = Run<FD>().one(argv[2], a, b, true);
+        else if (p <= 1 && !strncmp(argv[2], "wnaf_", 5)) {
+            char kbuf[32]; snprintf(kbuf, sizeof(kbuf), "%llu", (unsigned long long) a | ((unsigned long long) b << 32));
+            wnaf_sweep(true, 0, 1, argv[2], kbuf);
+            ok = nfail_total == 0;
+        }
         else if (p == 0) {
             /* raw BigInt<16> case: re-run the row of a (for the binary operations against the recorded b only) */
             unsigned long long n = 0;
@@ -212,8 +285,12 @@ int main(int argc, char** argv) {
         }
         return ok ? 0 : 1;
     }
-    bool thorough = argc >= 2 && !strcmp(argv[1], "thorough");
+    bool thorough = argc >= 2 && (!strcmp(argv[1], "thorough") || !strcmp(argv[1], "wnaf-thorough"));
     int part = argc >= 3 ? atoi(argv[2]) : 0, nparts = argc >= 4 ? atoi(argv[3]) : 1;
+    if (argc >= 2 && !strncmp(argv[1], "wnaf", 4)) {          /* C06's share of engine S */
+        wnaf_sweep(thorough, part, nparts, nullptr, nullptr);
+        return nfail_total ? 1 : 0;
+    }
     Run<FA>().sweep(thorough, part, nparts);
     Run<FC>().sweep(thorough, part, nparts);
     if (thorough) {
